@@ -27,7 +27,7 @@ pub fn gen_case(rng: &mut Rng, idx: usize, thorough: bool) -> Value {
     }
     let (g, texts) = eng::gen_grammar(rng, idx);
     json!({"grammar": g.to_json(), "texts": texts.iter().map(|t| crate::vocab::hex(t)).collect::<Vec<_>>(),
-           "vocab_kind": (idx + idx / 3) % 3, "canonical": false, "seed": rng.next() % 1_000_000_000, "steps": if thorough { 40 } else { 24 }})
+           "vocab_kind": (idx + idx / 3) % 3, "canonical": idx % 5 == 1, "seed": rng.next() % 1_000_000_000, "steps": if thorough { 40 } else { 24 }})
 }
 
 fn bytes_len(m: &Matcher) -> usize {
